@@ -47,6 +47,13 @@ pub struct TableDP {
     /// state of another node of the same layer (the "recycled merged node" path of the diagrams).
     #[serde(default)]
     pub join: Option<(usize, usize)>,
+    /// "telescoping" potentials: an arc a -> b of layer l costs c - psi[l][a] + psi[l+1][b] (instead of
+    /// c + psi[l+1][b]); for a set state the subtracted term is the max over its atoms. A merged state is then
+    /// WORSE than its members on its outgoing arcs (it pays the largest potential back) and the arc relaxation
+    /// `relax` - which raises the inbound arc from psi(dst) to psi(merged) - is what keeps the diagram a
+    /// relaxation: with an identity `relax` the bound would be unsound. (Max-cut / max-2-sat style.)
+    #[serde(default)]
+    pub tele: bool,
 }
 
 impl TableDP {
@@ -68,7 +75,7 @@ impl TableDP {
                 None
             }
         } else {
-            self.delta[l][a][d].map(|(nx, c)| (nx, c + self.psi[l + 1][nx]))
+            self.delta[l][a][d].map(|(nx, c)| (nx, c + self.psi[l + 1][nx] - if self.tele { self.psi[l][a] } else { 0 }))
         }
     }
     /// base (potential free) transition on atoms
@@ -202,7 +209,7 @@ impl Problem for TableDP {
         if self.has_irrelevance() {
             best
         } else {
-            best + self.big_psi(l + 1, dst.set)
+            best + self.big_psi(l + 1, dst.set) - if self.tele { self.big_psi(l, s.set) } else { 0 }
         }
     }
     fn next_variable(&self, depth: usize, _: &mut dyn Iterator<Item = &St>) -> Option<Variable> {
@@ -687,7 +694,7 @@ pub fn build(raw: Raw, p: &GenParams) -> TableDP {
             }
         }
     }
-    let mut t = TableDP { n, b, nd, order, delta, psi: psi_t, relevant, init: (init as usize * b) >> 8, v0: v0 as isize, embed_depth, join: None };
+    let mut t = TableDP { n, b, nd, order, delta, psi: psi_t, relevant, init: (init as usize * b) >> 8, v0: v0 as isize, embed_depth, join: None, tele: pot && (v0 & 1 == 1) };
     if join_on && b == 4 {
         // make the tables monotone in the product order of the 2 x 2 grid, bottom-up
         t.join = Some((2, 2));
@@ -795,6 +802,6 @@ pub fn exhaustive_instance(idx: u32, cost_table: usize) -> TableDP {
             }
         }
     }
-    TableDP { n, b, nd, order: vec![0, 1, 2], delta, psi: vec![vec![0; b]; n + 1], relevant: vec![vec![true; b]; n], init: 0, v0: 0, embed_depth: true, join: None }
+    TableDP { n, b, nd, order: vec![0, 1, 2], delta, psi: vec![vec![0; b]; n + 1], relevant: vec![vec![true; b]; n], init: 0, v0: 0, embed_depth: true, join: None, tele: false }
 }
 pub const EXHAUSTIVE_SPACE: u32 = 531_441; // 3^12
